@@ -134,6 +134,15 @@ CHECKS = {
         "units": [unit("c08-root", "root", ["zz_verif_c08_test.go", "zz_verif_c12_test.go"], "^TestVerifC08", shards={"quick": 16, "thorough": 16})],
         "assumptions": ["coverage-guided byte-level fuzzing named in the quantifier is a sampling technique and is not used; the structural mutation space is enumerated completely instead"],
     },
+    "C18": {
+        "level": "fault_enumeration",
+        "units": [
+            unit("c18-big", "big", ["zz_verif_c18_test.go"], "^TestVerifC18", shards={"quick": 2, "thorough": 4}),
+            unit("c18-gabikeys", "gabikeys", ["zz_verif_c18_test.go"], "^TestVerifC18", shards={"quick": 4, "thorough": 8}),
+            unit("c18-root", "root", ["zz_verif_c18_test.go", "zz_verif_c06_test.go", "zz_verif_c11_test.go", "zz_verif_c14_test.go"], "^TestVerifC18", shards={"quick": 8, "thorough": 8}),
+        ],
+        "assumptions": ["checks run as root: permission *enforcement* is not observable, only the resulting mode bits"],
+    },
     "_FIX": {
         "level": "other",
         "units": [unit("genfix", "root", [], "^TestVerifGenFixtures$", env={"VERIF_GENFIX": "1"}, timeout=1800)],
